@@ -67,7 +67,7 @@ def relevant(hyps, goal, hops):
     return [h for (h, _), c in zip(hv, chosen) if c]
 
 
-def discharge(stats, hyps, goal, what, named=None, timeout_s=60, tactic=None, hops=None):
+def discharge(stats, hyps, goal, what, named=None, timeout_s=60, tactic=None, hops=None, hop_timeout=20):
     """prove goal under hyps or raise Violation / Inconclusive"""
     if os.environ.get("VERIF_DUMP_QUERIES"):
         import hashlib
@@ -79,7 +79,7 @@ def discharge(stats, hyps, goal, what, named=None, timeout_s=60, tactic=None, ho
         for hp in hops:
             sub = relevant(hyps, goal, hp)
             if len(sub) < len(hyps):
-                st, m, dt = smt.prove(sub, goal, min(timeout_s, 20), stats, tactic)
+                st, m, dt = smt.prove(sub, goal, min(timeout_s, hop_timeout), stats, tactic)
                 stats.log.append((what + " [%d-hop premises: %d of %d]" % (hp, len(sub), len(hyps)), st, round(dt, 3)))
                 if st == smt.UNSAT:
                     return
@@ -175,7 +175,7 @@ def assert_sat(stats, hyps, what, timeout_s=20):
         raise Inconclusive("vacuous obligation: hypotheses of '%s' are unsatisfiable" % what)
 
 
-def check_panics(stats, ctx, named=None, timeout_s=30, allow=None, hops=None, fresh_only=False):
+def check_panics(stats, ctx, named=None, timeout_s=30, allow=None, hops=None, fresh_only=False, hop_timeout=20):
     """every MIR assert (overflow / bounds / explicit) and every recorded invariant on this path must hold.
     fresh_only: skip the obligations recorded on the replayed prefix of the path (identical copies belong to the parent
     path) - only valid when the caller checks EVERY path returned by explore()."""
@@ -183,7 +183,7 @@ def check_panics(stats, ctx, named=None, timeout_s=30, allow=None, hops=None, fr
         if allow and allow(msg, where):
             continue
         what = ("no panic at %s: %s" if kind != "invariant" else "%s: %s") % (where, msg[:90])
-        discharge(stats, ctx.facts + pc, cond, what, named, timeout_s, hops=hops)
+        discharge(stats, ctx.facts + pc, cond, what, named, timeout_s, hops=hops, hop_timeout=hop_timeout)
 
 
 _TV = {}
